@@ -49,4 +49,27 @@ def loadFile (r : LoadRequest) (d : Doc) (dir : Option Paths.PPath) : Except Fil
   | .ok c => pure c
   | .error _ => .error .invalid
 
+/-! ### the file-level decisions of `soundevent.io.save` (added by the C01 review) -/
+
+structure SaveRequest where
+  suffixJson : Bool               -- `Path(path).suffix == ".json"`
+  format : Option String          -- the `format` argument (`None`: infer from the suffix)
+  deriving Repr
+
+/-- `soundevent.io.save(obj, path, audio_dir, format)` up to the call of `to_aeof`: the format is
+    inferred from the suffix only when none is given; an explicit `"aoef"` writes to any file name -/
+def saveGate (r : SaveRequest) : Except FileErr Unit := do
+  let fmt ← match r.format with
+    | some f => pure f
+    | none => if r.suffixJson then pure "aoef" else .error .invalid
+  if fmt ≠ "aoef" then .error .invalid
+  pure ()
+
+/-- what a save followed by a load *of the same file with the same `format` argument* does before
+    any document is looked at -/
+def saveLoadGate (suffixJson : Bool) (format : Option String) (docType version : String) :
+    Except FileErr Unit := do
+  saveGate ⟨suffixJson, format⟩
+  loadGate ⟨true, suffixJson, format, none, version, docType⟩
+
 end SE.Aoef
